@@ -1709,46 +1709,32 @@ def run_shared(ctx, res, big):
     from vlib.sched import RandomPolicy
     ncases = ctx.budget(40, 300)
     reported = set()
-    ndis = 0
-    for _ in range(ncases):
-        seed = ctx.rng.randrange(1 << 40)
-        case = gen_case(seed, big)
-        nthreads = ctx.rng.choice([2, 2, 3])
-        pseed = ctx.rng.randrange(1 << 30)
-        s, rec = shared_run(case, nthreads, RandomPolicy(random.Random(pseed), preempt_prob=0.5))
-        if rec['errors']:
-            res.count('shared.node-rejected-by-frappy')
-            continue
-        if rec['result']['aborted'] not in (None,):
-            raise RuntimeError(f'scheduler aborted ({rec["result"]["aborted"]}) on shared case {seed}')
-        if len(rec['steps']) != rec['nsteps']:
-            raise RuntimeError(f'shared case {seed}: {len(rec["steps"])} of {rec["nsteps"]} requests reached a handler')
-        schedule = [c for _, c, _ in s.choices]
-        serial, model, judge = ctx.driver.batch(shared_requests(ctx, rec))
+    ndis = [0]
+
+    def evaluate(ref, rec, serial, model, judge):
         for a in (serial, model, judge):
             if 'driver_error' in a:
-                raise RuntimeError(f'driver error: {a["driver_error"]} (shared case {seed})')
+                raise RuntimeError(f'driver error: {a["driver_error"]} (shared case {ref})')
         res.evaluations += len(rec['steps'])
         res.traces += len(rec['steps'])
         res.count('shared.histories')
         res.count('shared.requests', len(rec['steps']))
-        res.count('shared.threads.%d' % nthreads)
+        res.count('shared.threads.%d' % ref['shared']['threads'])
         res.count('shared.switches', sum(1 for i in range(1, len(rec['events'])) if rec['events'][i][1] != rec['events'][i - 1][1]))
-        ref = {'shared': {'seed': seed, 'big': big, 'threads': nthreads}, 'schedule': schedule}
         if not serial['ok']:
             # the sequential model does not describe this run; nothing is judged on it
-            ndis += 1
-            if ctx.model_ok and ndis <= 3:
+            ndis[0] += 1
+            if ctx.model_ok and ndis[0] <= 3:
                 res.disagreements.append({'case': ref, 'model': 'requests are handled one at a time',
                                           'impl': {'handler sections': rec['events'][:40]}})
-            continue
+            return
         if any(st['obs']['calls'] for st in rec['steps']) and len({e[1] for e in rec['events']}) > 1:
-            res.nontriv(['shared', seed, nthreads, pseed])
+            res.nontriv(['shared', ref['shared'], ref['pseed']])
         if ctx.model_ok:
             d = compare(model, rec)
             if d is not None:
-                ndis += 1
-                if ndis <= 3:
+                ndis[0] += 1
+                if ndis[0] <= 3:
                     res.disagreements.append({'case': dict(ref, step=d['step']), 'model': {d['field']: d['model']},
                                               'impl': {d['field']: d['impl'], 'req': d['req'], 'pyclass': d['pyclass']}})
         if judge['bad'] is not None:
@@ -1762,6 +1748,30 @@ def run_shared(ctx, res, big):
                     'what': f'(several connections) request {st["req"]} answered {st["obs"]["reply"]} with driver calls '
                             f'{st["obs"]["calls"]}; the specification says: {why}',
                     'case': ref, 'detail': {'step': idx, 'obs': {k: st['obs'][k] for k in ('reply', 'calls', 'emits')}}})
+
+    CHUNK = 50
+    for start in range(0, ncases, CHUNK):
+        runs, reqs = [], []
+        for _ in range(start, min(ncases, start + CHUNK)):
+            seed = ctx.rng.randrange(1 << 40)
+            case = gen_case(seed, big)
+            nthreads = ctx.rng.choice([2, 2, 3])
+            pseed = ctx.rng.randrange(1 << 30)
+            s, rec = shared_run(case, nthreads, RandomPolicy(random.Random(pseed), preempt_prob=0.5))
+            if rec['errors']:
+                res.count('shared.node-rejected-by-frappy')
+                continue
+            if rec['result']['aborted'] not in (None,):
+                raise RuntimeError(f'scheduler aborted ({rec["result"]["aborted"]}) on shared case {seed}')
+            if len(rec['steps']) != rec['nsteps']:
+                raise RuntimeError(f'shared case {seed}: {len(rec["steps"])} of {rec["nsteps"]} requests reached a handler')
+            ref = {'shared': {'seed': seed, 'big': big, 'threads': nthreads}, 'schedule': [c for _, c, _ in s.choices],
+                   'pseed': pseed}
+            runs.append((ref, rec))
+            reqs += shared_requests(ctx, rec)
+        answers = ctx.driver.batch(reqs)
+        for j, (ref, rec) in enumerate(runs):
+            evaluate(ref, rec, answers[3 * j], answers[3 * j + 1], answers[3 * j + 2])
 
 
 # ----------------------------------------------------------------------------------------
@@ -1886,24 +1896,12 @@ def wire_run(case, chunking):
 def run_wire(ctx, res, big):
     ncases = ctx.budget(40, 400)
     reported = set()
-    ndis = 0
-    for _ in range(ncases):
-        seed = ctx.rng.randrange(1 << 40)
-        chunking = ctx.rng.randrange(1 << 30)
-        rec = wire_run(gen_case(seed, big), chunking)
-        if rec['errors']:
-            res.count('wire.node-rejected-by-frappy')
-            continue
-        ref = {'wire': {'seed': seed, 'big': big, 'chunking': chunking}}
-        if not (rec['nlines'] == rec['nsteps'] == len(rec['steps'])):
-            # not one reply line per request line: C07's subject; here the history cannot be aligned
-            res.disagreements.append({'case': ref, 'model': f'{rec["nsteps"]} requests, one reply line each',
-                                      'impl': {'handled': len(rec['steps']), 'lines': rec['nlines'], 'log': rec['died']}})
-            continue
-        model, judge = ctx.driver.batch(model_and_judge(ctx, rec))
+    ndis = [0]
+
+    def evaluate(ref, rec, model, judge):
         for a in (model, judge):
             if 'driver_error' in a:
-                raise RuntimeError(f'driver error: {a["driver_error"]} (wire case {seed})')
+                raise RuntimeError(f'driver error: {a["driver_error"]} (wire case {ref})')
         res.evaluations += len(rec['steps'])
         res.traces += len(rec['steps'])
         res.count('wire.histories')
@@ -1911,12 +1909,12 @@ def run_wire(ctx, res, big):
         for st in rec['steps']:
             res.count('wire.' + classify(st))
         if any(st['obs']['calls'] for st in rec['steps']) and any(st['obs']['reply'][0] == 'error' for st in rec['steps']):
-            res.nontriv(['wire', seed, chunking])
+            res.nontriv(['wire', ref['wire']])
         if ctx.model_ok:
             d = compare(model, rec)
             if d is not None:
-                ndis += 1
-                if ndis <= 3:
+                ndis[0] += 1
+                if ndis[0] <= 3:
                     res.disagreements.append({'case': dict(ref, step=d['step']), 'model': {d['field']: d['model']},
                                               'impl': {d['field']: d['impl'], 'req': d['req']}})
         if judge['bad'] is not None:
@@ -1930,6 +1928,28 @@ def run_wire(ctx, res, big):
                     'what': f'(through the request loop) request line {st["req"]} answered {st["obs"]["reply"]} with driver '
                             f'calls {st["obs"]["calls"]}; the specification says: {why}',
                     'case': ref, 'detail': {'step': idx, 'obs': {k: st['obs'][k] for k in ('reply', 'calls', 'emits')}}})
+
+    CHUNK = 50
+    for start in range(0, ncases, CHUNK):
+        runs, reqs = [], []
+        for _ in range(start, min(ncases, start + CHUNK)):
+            seed = ctx.rng.randrange(1 << 40)
+            chunking = ctx.rng.randrange(1 << 30)
+            rec = wire_run(gen_case(seed, big), chunking)
+            if rec['errors']:
+                res.count('wire.node-rejected-by-frappy')
+                continue
+            ref = {'wire': {'seed': seed, 'big': big, 'chunking': chunking}}
+            if not (rec['nlines'] == rec['nsteps'] == len(rec['steps'])):
+                # not one reply line per request line: C07's subject; here the history cannot be aligned
+                res.disagreements.append({'case': ref, 'model': f'{rec["nsteps"]} requests, one reply line each',
+                                          'impl': {'handled': len(rec['steps']), 'lines': rec['nlines'], 'log': rec['died']}})
+                continue
+            runs.append((ref, rec))
+            reqs += model_and_judge(ctx, rec)
+        answers = ctx.driver.batch(reqs)
+        for j, (ref, rec) in enumerate(runs):
+            evaluate(ref, rec, answers[2 * j], answers[2 * j + 1])
 
 
 # ----------------------------------------------------------------------------------------
@@ -2004,7 +2024,7 @@ def run(ctx):
             entry = json.load(open(os.path.join(cdir, fn)))
             if 'case' in entry:
                 cases.append(entry['case'])
-    seeds = [rng.randrange(1 << 40) for _ in range(ctx.budget(600, 5000))]
+    seeds = [rng.randrange(1 << 40) for _ in range(ctx.budget(450, 5000))]
     state = {'skipped': 0, 'shrunk': 0, 'ncases': 0}
 
     def process(cases):
